@@ -205,6 +205,187 @@ fn typed_tree(r: &mut Rng, k: usize, com: bool, p: &[Lit]) -> A {
     A::Bin(op, Box::new(typed_tree(r, i, lc, p)), Box::new(typed_tree(r, j, rc, p)))
 }
 
+// ---------- divisions whose divisor has no finite reciprocal, with an exact quotient ----------
+
+/// divisors d with 1/d not a terminating decimal: (mantissa, scale)
+const NT_DIVISORS: [(i64, u32); 18] = [
+    (3, 0), (6, 0), (7, 0), (9, 0), (11, 0), (12, 0), (13, 0), (3, 1), (7, 2), (14, 0), (15, 0), (21, 0), (33, 1), (-3, 0), (-7, 0), (24, 0), (45, 1), (3, 0),
+];
+
+fn push_lit(p: &mut Vec<Lit>, m: i64, scale: u32, comm: Option<usize>) -> A {
+    p.push(Lit { m, scale, comm, grouped: m.abs() >= 1000 && scale <= 2 && m % 7 == 0 });
+    A::Lit(p.len() - 1)
+}
+
+/// A tree `D / d` (or `D / d C`) where d has no finite reciprocal and D - a literal, a sum, a
+/// difference, a product, over one or two commodities or none - is an exact multiple of d; the
+/// node is then placed under further operators.  Every quotient terminates, so the whole case
+/// is compared exactly.  The literals go to a pool of the case's own.
+fn exact_division_tree(r: &mut Rng, p: &mut Vec<Lit>) -> (A, &'static str) {
+    let (dm, ds) = *r.pick(&NT_DIVISORS);
+    // the quotient
+    let qs = *r.pick(&[0u32, 0, 0, 1, 2, 2, 3]);
+    let qmax = if r.chance(1, 3) { 90_000 } else { 900 };
+    let qm = r.range(1, qmax) * if r.chance(1, 4) { -1 } else { 1 };
+    // commodity typing of the node: amount / number mostly; number / number; number / amount
+    let kind = r.below(10);
+    let (dividend_comm, divisor_comm) = match kind {
+        0 => (None, None),
+        1 => (None, Some(*r.pick(&[USD, EUR]))),
+        _ => (Some(*r.pick(&[USD, EUR])), None),
+    };
+    let c = dividend_comm;
+    // the dividend D = q * d written in one of six ways
+    let (big_m, big_s) = (qm * dm, qs + ds);
+    let (dividend, form) = match r.below(6) {
+        0 | 1 => (push_lit(p, big_m, big_s, c), "literal"),
+        2 => {
+            // x + (D - x)  or  x - (x - D)
+            let x = r.range(1, 5000) * 10i64.pow(big_s.min(3));
+            let xl = push_lit(p, x, big_s, c);
+            if r.chance(1, 2) {
+                (A::Bin(Op::Add, Box::new(xl), Box::new(push_lit(p, big_m - x, big_s, c))), "sum")
+            } else {
+                (A::Bin(Op::Sub, Box::new(xl), Box::new(push_lit(p, x - big_m, big_s, c))), "difference")
+            }
+        }
+        3 => {
+            // q C * d  or  d * q C : the product is the multiple
+            let ql = push_lit(p, qm, qs, c);
+            let dl = push_lit(p, dm, ds, None);
+            if r.chance(1, 2) {
+                (A::Bin(Op::Mul, Box::new(ql), Box::new(dl)), "product")
+            } else {
+                (A::Bin(Op::Mul, Box::new(dl), Box::new(ql)), "product")
+            }
+        }
+        4 => {
+            // (q C * j) with j a multiple of d
+            let t = r.range(2, 9);
+            let ql = push_lit(p, qm, qs, c);
+            let jl = push_lit(p, dm * t, ds, None);
+            (A::Bin(Op::Mul, Box::new(ql), Box::new(jl)), "product_of_multiple")
+        }
+        _ => match c {
+            // two commodities, each a multiple of d
+            Some(c1) => {
+                let c2 = if c1 == USD { EUR } else { USD };
+                let a = push_lit(p, big_m, big_s, Some(c1));
+                let b = push_lit(p, dm * r.range(1, 400), ds, Some(c2));
+                (A::Bin(Op::Add, Box::new(a), Box::new(b)), "two_commodities")
+            }
+            None => (A::Neg(Box::new(push_lit(p, -big_m, big_s, None))), "negated"),
+        },
+    };
+    let divisor = push_lit(p, dm, ds, divisor_comm);
+    let mut node = A::Bin(Op::Div, Box::new(dividend), Box::new(divisor));
+    // what stands around the node
+    let typed = dividend_comm.or(divisor_comm);
+    let two = form == "two_commodities";
+    for _ in 0..r.below(3) {
+        node = match r.below(7) {
+            0 => A::Neg(Box::new(node)),
+            1 => A::Bin(Op::Mul, Box::new(node), Box::new(push_lit(p, *r.pick(&[2i64, 3, 5, 25, -4]), *r.pick(&[0u32, 0, 1]), None))),
+            2 => A::Bin(Op::Mul, Box::new(push_lit(p, *r.pick(&[2i64, 3, 15]), 0, None)), Box::new(node)),
+            3 => A::Bin(Op::Div, Box::new(node), Box::new(push_lit(p, *r.pick(&[2i64, 4, 5, 8, 10, 5]), *r.pick(&[0u32, 0, 1]), None))),
+            4 | 5 => {
+                let other = push_lit(p, r.range(-2000, 2000), *r.pick(&[0u32, 2]), if two && r.chance(1, 2) { Some(USD) } else { typed });
+                let op = if r.chance(1, 2) { Op::Add } else { Op::Sub };
+                if r.chance(1, 2) {
+                    A::Bin(op, Box::new(node), Box::new(other))
+                } else {
+                    A::Bin(op, Box::new(other), Box::new(node))
+                }
+            }
+            _ => node,
+        };
+    }
+    (node, form)
+}
+
+/// (divisions whose divisor has no finite reciprocal and whose quotient is exact, those among
+/// them that divide a commodity amount by a bare number) in a tree that evaluates to a value -
+/// by the generator's own arithmetic; (0, 0) for a tree that is ill-typed or overflows
+pub fn nt_divisions(t: &VE) -> (usize, usize) {
+    // value per commodity (None = bare number)
+    type V = std::collections::BTreeMap<Option<usize>, Decimal>;
+    fn bare(v: &V) -> Option<Decimal> {
+        if v.len() == 1 {
+            v.get(&None).copied()
+        } else {
+            None
+        }
+    }
+    fn ve(v: &VE, acc: &mut (usize, usize)) -> Option<V> {
+        match v {
+            VE::Paren(e) => ex(e, acc),
+            VE::Amt(l) => {
+                let mut m = V::new();
+                m.insert(l.comm, l.dec());
+                Some(m)
+            }
+        }
+    }
+    fn ex(e: &Ex, acc: &mut (usize, usize)) -> Option<V> {
+        Some(match e {
+            Ex::Val(v) => ve(v, acc)?,
+            Ex::Neg(x) => ex(x, acc)?.into_iter().map(|(c, v)| (c, -v)).collect(),
+            Ex::Bin(op, l, r) => {
+                let lv = ex(l, acc)?;
+                let rv = ex(r, acc)?;
+                match op {
+                    Op::Add | Op::Sub => {
+                        if bare(&lv).is_some() != bare(&rv).is_some() {
+                            return None;
+                        }
+                        let mut m = lv.clone();
+                        for (c, v) in rv {
+                            let e = m.entry(c).or_insert(Decimal::ZERO);
+                            *e = if *op == Op::Add { e.checked_add(v)? } else { e.checked_sub(v)? };
+                        }
+                        m
+                    }
+                    Op::Mul => match (bare(&lv), bare(&rv)) {
+                        (Some(x), _) => rv.into_iter().map(|(c, v)| Some((c, v.checked_mul(x)?))).collect::<Option<V>>()?,
+                        (_, Some(y)) => lv.into_iter().map(|(c, v)| Some((c, v.checked_mul(y)?))).collect::<Option<V>>()?,
+                        _ => return None,
+                    },
+                    Op::Div => {
+                        // the divisor: a bare number, or (under a bare dividend) one commodity
+                        if rv.len() != 1 {
+                            return None;
+                        }
+                        let (yc, y) = rv.iter().next().map(|(c, v)| (*c, *v))?;
+                        if y.is_zero() || (yc.is_some() && bare(&lv).is_none()) {
+                            return None;
+                        }
+                        let mut exact = true;
+                        let mut m = V::new();
+                        for (c, v) in &lv {
+                            let q = v.checked_div(y)?;
+                            exact &= q.checked_mul(y) == Some(*v);
+                            m.insert(c.or(yc), q);
+                        }
+                        let recip = Decimal::ONE.checked_div(y)?;
+                        if exact && recip.checked_mul(y) != Some(Decimal::ONE) && lv.values().any(|v| !v.is_zero()) {
+                            acc.0 += 1;
+                            if yc.is_none() && bare(&lv).is_none() {
+                                acc.1 += 1;
+                            }
+                        }
+                        m
+                    }
+                }
+            }
+        })
+    }
+    let mut acc = (0, 0);
+    match ve(t, &mut acc) {
+        Some(_) => acc,
+        None => (0, 0),
+    }
+}
+
 fn count_ops_ve(v: &VE) -> usize {
     match v {
         VE::Paren(e) => count_ops(e),
@@ -417,7 +598,7 @@ fn lit_ve(m: i64, comm: Option<usize>) -> VE {
 }
 
 fn two(p: Posting) -> Vec<Entry> {
-    vec![Entry::Txn(Txn { effective: None, date: 0, posts: vec![p, Posting { account: 1, amount: None, cost: None, lot: None, balance: None }] })]
+    vec![Entry::Txn(Txn { effective: None, date: 0, posts: vec![p, Posting { account: 1, amount: None, cost: None, lot: None, balance: None }], head: Head::default() })]
 }
 
 fn position_ledgers(t: &VE) -> Vec<(&'static str, Vec<Entry>)> {
@@ -442,8 +623,9 @@ const FORMAT_TABLES: [&[(usize, u32)]; 4] = [
 /// which table the n-th case uses: whole units (where every fraction would show) most often
 const TABLE_ROTATION: [usize; 6] = [0, 1, 0, 2, 0, 3];
 
-fn format_entries(k: usize) -> Vec<Entry> {
-    FORMAT_TABLES[k].iter().map(|(c, dp)| Entry::Format(*c, *dp)).collect()
+/// the declarations of table k; `n` chooses how each sample number is written
+fn format_entries(k: usize, n: usize) -> Vec<Entry> {
+    FORMAT_TABLES[k].iter().enumerate().map(|(i, (c, dp))| Entry::Format(*c, *dp, FmtLit::nth(n + i))).collect()
 }
 
 /// one processed ledger that declares the precisions of FORMAT_TABLES[k]
@@ -504,6 +686,7 @@ fn emit<'c>(
     rctx: &report::ReportContext<'c>,
     fmt_bases: &mut [FmtBase<'c>],
     forced_table: Option<usize>,
+    forced_shape: Option<usize>,
     t: &VE,
     tag: &str,
 ) {
@@ -531,8 +714,12 @@ fn emit<'c>(
     };
     let mut lobs = Vec::new();
     let mut ljson = serde_json::Map::new();
-    for (name, es) in position_ledgers(t) {
+    // header shape of the five ledgers and sample-number shape of the declarations: by case number
+    let nth = forced_shape.unwrap_or(cx.emitted);
+    for (name, mut es) in position_ledgers(t) {
+        vary_shapes_nth(&mut es, nth);
         let r = render(&es);
+        shape_text_stats(&mut cx.st, &shape(&es));
         let o = run_process(&[("/main.ledger".to_string(), r.text.clone())], &cx.names, Some(&r));
         cx.st.count(&format!("{}:{}", name, obs_kind(&o)));
         ljson.insert(name.to_string(), json!({"ledger": r.text, "impl": obs_json(&o)}));
@@ -541,10 +728,12 @@ fn emit<'c>(
     // the same five ledgers after `commodity X / format ..` declarations
     let mut flobs = Vec::new();
     let mut fjson = serde_json::Map::new();
-    for (name, es) in position_ledgers(t) {
-        let mut all = format_entries(table);
+    for (name, mut es) in position_ledgers(t) {
+        vary_shapes_nth(&mut es, nth + 1);
+        let mut all = format_entries(table, nth);
         all.extend(es);
         let r = render(&all);
+        shape_text_stats(&mut cx.st, &shape(&all));
         let o = run_process(&[("/main.ledger".to_string(), r.text.clone())], &cx.names, Some(&r));
         cx.st.count(&format!("declared:{}:{}", name, obs_kind(&o)));
         fjson.insert(name.to_string(), json!({"ledger": r.text, "impl": obs_json(&o)}));
@@ -559,6 +748,13 @@ fn emit<'c>(
         }
     }
     let nops = count_ops_ve(t);
+    let (ntd, ntd_amount) = nt_divisions(t);
+    if ntd > 0 {
+        cx.st.count("division:exact_quotient_by_divisor_without_finite_reciprocal");
+    }
+    if ntd_amount > 0 {
+        cx.st.count("division:exact_quotient_by_divisor_without_finite_reciprocal(amount / number)");
+    }
     cx.st.eval(&text, nops >= 1);
     cx.st.count(&format!("gen:{}", tag));
     cx.st.count(&format!("operators:{}", nops.min(9)));
@@ -580,7 +776,7 @@ fn emit<'c>(
         cx.st.count("shape:real_parser_differs");
     }
     let rep = json!({"property": "C08", "expr": text, "tree": serde_json::to_value(t).unwrap(),
-        "fmt_table": table,
+        "fmt_table": table, "shape_n": nth,
         "impl": {"parsed_as": parsed.as_ref().map(|p| ve_text(p)), "ledger_eval": robs_json(&ev), "cli_eval": robs_json(&cl),
                  "positions": ljson,
                  "declared_precisions": FORMAT_TABLES[table].iter().map(|(c, dp)| format!("{} {}", COMMODITIES[*c], dp)).collect::<Vec<_>>(),
@@ -672,7 +868,7 @@ pub fn run(o: &Opts) {
         emitted: 0,
         _scratch: &scratch,
     };
-    cx.st.rule = "expression trees generated along the grammar of parse/expr.rs (add over mul over unary over value; parentheses where the grammar needs them, plus redundant ones in the random stream) over six literals (number, zero, amount, zero amount, negative amount, second commodity); printed to text; the text is parsed by syntax::expr::ValueExpr::try_from (tree compared) and evaluated by Ledger::eval, `okane primitive eval`, and as posting amount, @ cost, {} lot price, balance assertion and balance assignment through report::process - all seven twice: on ledgers without declarations and on ledgers that declare display precisions (`commodity X` + `format`, four tables rotating, whole units most often), where the answers must be the same exact values; non-trivial = at least one operator; distinct by expression text".into();
+    cx.st.rule = "expression trees generated along the grammar of parse/expr.rs (add over mul over unary over value; parentheses where the grammar needs them, plus redundant ones in the random stream) over six literals (number, zero, amount, zero amount, negative amount, second commodity), plus a stream of divisions whose divisor has no finite reciprocal (3, 6, 7, 9, 11, 12, 13, 0.3, 0.07, 1.4, 15, 21, 3.3, 24, 4.5, -3, -7) and whose dividend - a literal, a sum, a difference, a product, two commodities; a commodity amount, a bare number, or a number over an amount - is an exact multiple of it, under up to two further operators (counted as division:exact_quotient_by_divisor_without_finite_reciprocal; all compared exactly); printed to text; the text is parsed by syntax::expr::ValueExpr::try_from (tree compared) and evaluated by Ledger::eval, `okane primitive eval`, and as posting amount, @ cost, {} lot price, balance assertion and balance assignment through report::process - all seven twice: on ledgers without declarations and on ledgers that declare display precisions (`commodity X` + `format`, four tables rotating, whole units most often), where the answers must be the same exact values; non-trivial = at least one operator; distinct by expression text".into();
     cx.st.assumptions.push("an inexact quotient (Decimal rounds to 28 digits) is only generated at the root of a tree, where it is compared up to 1e-18 relative; everywhere else values are compared exactly".into());
     cx.st.assumptions.push("literal mantissas below 10^7, at most 8 operators: no Decimal overflow".into());
     cx.st.assumptions.push("parentheses nested far less than the parser's MAX_EXPR_DEPTH = 100 and trees far lower than its MAX_EXPR_HEIGHT = 256, i.e. chains far shorter than 255 operators (the token-level model has neither bound)".into());
@@ -688,7 +884,7 @@ pub fn run(o: &Opts) {
     // ... and one per table of declared precisions
     let mut fmt_bases: Vec<FmtBase> = Vec::new();
     for k in 0..FORMAT_TABLES.len() {
-        let text = format!("{}{}", render(&format_entries(k)).text, BASE_LEDGER);
+        let text = format!("{}{}", render(&format_entries(k, 3 * k)).text, BASE_LEDGER);
         let path = scratch.write(&format!("base_fmt{}.ledger", k), &text);
         let mut frctx = report::ReportContext::new(&arena);
         let mut map: HashMap<PathBuf, Vec<u8>> = HashMap::new();
@@ -715,7 +911,8 @@ pub fn run(o: &Opts) {
             if let Ok(v) = serde_json::from_str::<serde_json::Value>(&text) {
                 if let Some(t) = v.get("tree").and_then(|t| serde_json::from_value::<VE>(t.clone()).ok()) {
                     let k = v.get("fmt_table").and_then(|k| k.as_u64()).map(|k| k as usize);
-                    emit(&mut cx, &mut ledger, &rctx, &mut fmt_bases, k, &t, "corpus");
+                    let n = v.get("shape_n").and_then(|k| k.as_u64()).map(|k| k as usize);
+                    emit(&mut cx, &mut ledger, &rctx, &mut fmt_bases, k, n, &t, "corpus");
                 }
             }
         }
@@ -729,7 +926,7 @@ pub fn run(o: &Opts) {
         for k in 0..=kmax {
             for a in all_trees(k, &all6, &mut memo) {
                 if exactness(&a, &p6, true).is_some() {
-                    emit(&mut cx, &mut ledger, &rctx, &mut fmt_bases, None, &embed_top(&a, &p6), "exhaustive6");
+                    emit(&mut cx, &mut ledger, &rctx, &mut fmt_bases, None, None, &embed_top(&a, &p6), "exhaustive6");
                 }
             }
         }
@@ -738,7 +935,7 @@ pub fn run(o: &Opts) {
             let mut memo3 = HashMap::new();
             for a in all_trees(3, &[0, 2, 5], &mut memo3) {
                 if exactness(&a, &p6, true).is_some() {
-                    emit(&mut cx, &mut ledger, &rctx, &mut fmt_bases, None, &embed_top(&a, &p6), "exhaustive3lit");
+                    emit(&mut cx, &mut ledger, &rctx, &mut fmt_bases, None, None, &embed_top(&a, &p6), "exhaustive3lit");
                 }
             }
         }
@@ -749,7 +946,7 @@ pub fn run(o: &Opts) {
             let k = 2 + r.below(2) as usize;
             let a = if r.chance(1, 3) { random_tree(&mut r, k, 6) } else { let com = r.chance(3, 4); typed_tree(&mut r, k, com, &p6) };
             if exactness(&a, &p6, true).is_some() {
-                emit(&mut cx, &mut ledger, &rctx, &mut fmt_bases, None, &embed_top(&a, &p6), "random23");
+                emit(&mut cx, &mut ledger, &rctx, &mut fmt_bases, None, None, &embed_top(&a, &p6), "random23");
             } else {
                 cx.st.count("gen:skipped_inexact_inner_quotient");
             }
@@ -768,7 +965,27 @@ pub fn run(o: &Opts) {
                 VE::Paren(e) => VE::Paren(Box::new(sprinkle(&e, &mut r))),
                 x => x,
             };
-            emit(&mut cx, &mut ledger, &rctx, &mut fmt_bases, None, &t, "random_deep");
+            emit(&mut cx, &mut ledger, &rctx, &mut fmt_bases, None, None, &t, "random_deep");
+        }
+    }
+    if !replay {
+        // divisions by 3, 6, 7, 9, 11, 12, 13, 0.3, 0.07 ... of exact multiples: the quotient
+        // is exact although the reciprocal of the divisor is not, so the comparison is exact
+        let mut rd = Rng::new(o.seed, 802);
+        let n = if o.thorough { 5000 } else { 450 };
+        for _ in 0..n {
+            let mut pool: Vec<Lit> = Vec::new();
+            let (a, form) = exact_division_tree(&mut rd, &mut pool);
+            if exactness(&a, &pool, true).is_none() {
+                cx.st.count("gen:skipped_inexact_inner_quotient");
+                continue;
+            }
+            let t = match embed_top(&a, &pool) {
+                VE::Paren(e) if rd.chance(1, 4) => VE::Paren(Box::new(sprinkle(&e, &mut rd))),
+                x => x,
+            };
+            cx.st.count(&format!("exact_division:dividend_{}", form));
+            emit(&mut cx, &mut ledger, &rctx, &mut fmt_bases, None, None, &t, "exact_division");
         }
     }
     let Ctx { sh, st, .. } = cx;
